@@ -43,7 +43,7 @@ REQUIRED = ["op:anchors", "op:chains", "op:core-span", "op:extent", "op:extender
             "monitor:DetectionRule.detect", "monitor:connect_locations", "monitor:Record.get_cds_features_within_location",
             "shape:chain-across-origin", "shape:boundary-distance", "shape:clipped-extent", "shape:wrapped-extent",
             "shape:superior-removal", "shape:extender-extension",
-            "history:ruleset-used-on-an-earlier-small-circular-record"]
+            "history:ruleset-used-on-an-earlier-small-circular-record", "class:gene-with-hmmer-and-dynamic-hits"]
 
 
 class Capture:
@@ -181,6 +181,15 @@ def extender_walk(core_genes_first, core_genes_last, core_loc, genes_sorted, loc
     return admitted
 
 
+def _only_ids_and_minimum(ast) -> bool:
+    kind = ast[0]
+    if kind in ("id", "min"):
+        return True
+    if kind in ("and", "or"):
+        return all(_only_ids_and_minimum(sub) for sub in ast[1])
+    return False
+
+
 def check_world(ctx, world, results):
     length, circular = world["L"], world["circular"]
     wrap = length if circular else None
@@ -215,6 +224,20 @@ def check_world(ctx, world, results):
             if not (carries and near_anchor):
                 ctx.violate("anchor-spurious", dict(facts0, gene=g, carries_rule_profile=carries,
                                                     near_reference_anchor=near_anchor), world)
+        # a gene at which the rule fires only thanks to the hits of one particular neighbour: that neighbour takes
+        # part in the cluster (for conditions of identifiers and minimum() only - neighbours that satisfy a cds()
+        # group, a minscore() or the absence demanded by a negation are not recorded as taking part)
+        if _only_ids_and_minimum(ast):
+            for g in sorted(ref & got):
+                for o in nearby[g]:
+                    if o in got or not set(hits.get(o, {})) & profs:
+                        continue
+                    ctx.count("op:necessary-helper")
+                    without = {k: v for k, v in hits.items() if k != o}
+                    if not R.anchors(ast, g, without, nearby):
+                        ctx.violate("necessary-helper-gene-missing",
+                                    dict(facts0, gene=g, helper=o, helper_hits=sorted(hits[o]),
+                                         gene_listed_as_helper_of_an_earlier_gene=True), world)
         anchors = got
         if len(anchors) >= 2:
             names = sorted(anchors)
@@ -419,30 +442,41 @@ def run_world(ctx, world):
     CAP.reset()
     record = W.build_record(world)
     live_hits = dict(world["hits"])
+    # in a third of the worlds every other profile is an HMM signature (its hits come from the HMMer stage, the
+    # others from dynamic profiles): a gene may carry hits of both kinds
+    hmm_names = set(W.PROFILES[::2]) if zlib.crc32(repr(sorted(world["hits"].items())).encode()) % 3 == 0 else set()
     try:
-        ruleset = W.build_ruleset(dict(world, hits=live_hits))
+        ruleset = W.build_ruleset(dict(world, hits=live_hits), hmm_names=hmm_names)
     except (ValueError, SyntaxError) as err:
         ctx.count("skipped:ruleset-rejected:" + str(err)[:40])
         return
     for rule in world["rules"]:
         c01.REGISTRY[rule["name"]] = rule["ast"]
-    # a ruleset serves every record of a run: a quarter of the worlds are the second record of their run, the first
-    # being a small circular plasmid (shorter than twice the largest cutoff) on which every profile hits
-    if zlib.crc32(repr(sorted(world["genes"])).encode() + str(world["L"]).encode()) % 4 == 0:
-        largest = max(r["cutoff_kb"] for r in world["rules"]) * 1000
-        plasmid = {"L": largest + 300, "circular": True,
-                   "genes": {"p0": {"loc": {"parts": [[0, 200]], "strand": 1}},
-                             "p1": {"loc": {"parts": [[largest // 2 + 100, largest // 2 + 300]], "strand": -1}}},
-                   "hits": {"p0": {p: 50 for p in W.PROFILES}, "p1": {p: 50 for p in W.PROFILES}}}
-        live_hits.clear()
-        live_hits.update(plasmid["hits"])
-        ctx.guard("pipeline-crash", dict(world, earlier_record=plasmid), CP.detect_protoclusters_and_signatures,
-                  W.build_record(plasmid), ruleset)
-        ctx.count("history:ruleset-used-on-an-earlier-small-circular-record")
-        live_hits.clear()
-        live_hits.update(world["hits"])
-        CAP.reset()
-    ok, results = ctx.guard("pipeline-crash", world, CP.detect_protoclusters_and_signatures, record, ruleset)
+    real_find = CP.find_hmmer_hits
+    if hmm_names:
+        CP.find_hmmer_hits = lambda *_args, **_kwargs: W.hmmer_hits_of({"hits": live_hits}, hmm_names)
+        if any(set(hs) & hmm_names and set(hs) - hmm_names for hs in live_hits.values()):
+            ctx.count("class:gene-with-hmmer-and-dynamic-hits")
+    try:
+        # a ruleset serves every record of a run: a quarter of the worlds are the second record of their run, the
+        # first being a small circular plasmid (shorter than twice the largest cutoff) on which every profile hits
+        if zlib.crc32(repr(sorted(world["genes"])).encode() + str(world["L"]).encode()) % 4 == 0:
+            largest = max(r["cutoff_kb"] for r in world["rules"]) * 1000
+            plasmid = {"L": largest + 300, "circular": True,
+                       "genes": {"p0": {"loc": {"parts": [[0, 200]], "strand": 1}},
+                                 "p1": {"loc": {"parts": [[largest // 2 + 100, largest // 2 + 300]], "strand": -1}}},
+                       "hits": {"p0": {p: 50 for p in W.PROFILES}, "p1": {p: 50 for p in W.PROFILES}}}
+            live_hits.clear()
+            live_hits.update(plasmid["hits"])
+            ctx.guard("pipeline-crash", dict(world, earlier_record=plasmid), CP.detect_protoclusters_and_signatures,
+                      W.build_record(plasmid), ruleset)
+            ctx.count("history:ruleset-used-on-an-earlier-small-circular-record")
+            live_hits.clear()
+            live_hits.update(world["hits"])
+            CAP.reset()
+        ok, results = ctx.guard("pipeline-crash", world, CP.detect_protoclusters_and_signatures, record, ruleset)
+    finally:
+        CP.find_hmmer_hits = real_find
     if not ok:
         ctx.case(("world", world), nontrivial=True)
         return
